@@ -84,7 +84,10 @@ class _LazyWrites(dict):
 WRITES_ARG = _LazyWrites()
 # routines whose execution leaves freed junk of many sizes on the heap (prior-call alphabet)
 DIRTY = ["entropy.shannon_entropy", "mutual_info.mutual_information", "builders.mle", "tpt.paths",
-         "cluster.hybrid", "ra.ops"]
+         "cluster.hybrid", "ra.ops",
+         # calls that FAIL (the caller handles the exception and goes on): whatever a routine switched on before it
+         # failed -- floating-point error handling, warning filters, caches -- must not stay behind
+         "fails/builders.mle", "fails/entropy.kl_divergence", "fails/tpt.committors"]
 
 
 # ------------------------------------------------------------------ argument helpers
@@ -536,6 +539,15 @@ def _fam_builders():
         _reg("builders.normalize/zero_row%s,calculate_eq_probs=False" % ("_" + cont if cont else ""),
              lambda C: builders.normalize(C, calculate_eq_probs=False),
              (lambda cont: lambda rs, k: (_container((lambda C: (C.__setitem__((2, slice(None)), 0), C)[1])(_counts(rs, 5)), cont),))(cont))
+    # failing calls of the prior-call alphabet (their "result" is the exception type)
+    def never_left(rs, k):
+        C = _counts(rs, 4) + 1.0
+        C[k % 4, :] = 0               # a state that is never left: mle asserts
+        return (C,)
+    _reg("fails/builders.mle", lambda C: builders.mle(C), never_left)
+    _reg("fails/entropy.kl_divergence", lambda p, q: entropy.kl_divergence(p, q),
+         lambda rs, k: (np.ones(4) / 4, np.ones(5 + k) / (5 + k)))
+    _reg("fails/tpt.committors", lambda T: tpt.committors(T, [0], [9]), lambda rs, k: (_tprob(rs),))
     _reg("builders._row_normalize", lambda C: builders._row_normalize(C), lambda rs, k: (_counts(rs, 4).astype(int),))
     _reg("builders._row_normalize/csc", lambda C: builders._row_normalize(C), lambda rs, k: (sp.csc_matrix(_counts(rs, 4)),))
     _reg("builders._prinz_mle_py", lambda C: builders._prinz_mle_py(C), lambda rs, k: (_counts(rs, 4),))
